@@ -426,7 +426,7 @@ def expand(e, env, depth=0, at=None):
 _NO_SUBST = (ast.Call, ast.ListComp, ast.GeneratorExp, ast.List, ast.Dict, ast.Set, ast.DictComp, ast.SetComp, ast.Lambda, ast.Yield, ast.Await)
 
 
-def reaching_def(name, at, calls=False):
+def reaching_def(name, at, calls=False, containers=False):
     """The expression the local `name` certainly stands for at node `at`, or None.  Syntax-directed reaching definition: the
     nearest earlier sibling (of `at`'s statement or of one of its ancestors) that binds `name` must be a plain assignment
     `name = expr`; nothing between it and `at` may re-bind `name` or a name mentioned in `expr`; a loop around `at` that re-binds
@@ -455,7 +455,7 @@ def reaching_def(name, at, calls=False):
                     for x, y in zip(t.elts, st.value.elts):
                         if isinstance(x, ast.Name) and x.id == name:
                             val = y
-            if val is None or (isinstance(val, _NO_SUBST) and not (calls and isinstance(val, ast.Call))):
+            if val is None or (isinstance(val, _NO_SUBST) and not (calls and isinstance(val, ast.Call)) and not (containers and not isinstance(val, (ast.Call, ast.Lambda, ast.Yield, ast.Await)))):
                 return None
             used = {x.id for x in ast.walk(val) if isinstance(x, ast.Name)}
             if _binds(lst[i + 1:ia], used | {name}):
